@@ -73,8 +73,11 @@ class Rig:
             # the endpoint's connect thread connects to our listener (immediately or after T5 retry)
             self.sim.settle()
             s = self.listener.accept_nowait()
-            if s is None:
-                self.sim.advance(self.settings.timeouts.t5 + 1)
+            waited = 0.0
+            while s is None and waited < self.settings.timeouts.t5 + 1:
+                # small steps: the endpoint's Select.req must be answered within T6 of the (re)connect
+                self.sim.advance(0.25)
+                waited += 0.25
                 s = self.listener.accept_nowait()
             if s is None:
                 return False
